@@ -1318,6 +1318,12 @@ def placements_for(m, scheme):
         return list(two_site_placements(m))
     if scheme == "one3":       # 1 site at the first midpoint, <= 3 mutations
         return list(single_site_placements(m, 3, ("0", "1", "2"), MU.site_positions(m)[1:2]))
+    if scheme == "emptyalleles":   # zero-length allele strings, reached more than once at the site
+        pos = MU.site_positions(m)[1:2]
+        out = []
+        for anc in ("", "G"):
+            out += [pl for pl in MU.enumerate_placements(m, 1, 3, ("", "G"), pos, ancestral=anc) if pl]
+        return out
     if scheme == "mixed":      # for named/dedicated: a few single and double placements
         out = [rich_placement(m)]
         out += list(single_site_placements(m, 2, ("0", "1"), MU.site_positions(m)[1:2]))
@@ -1352,6 +1358,7 @@ def _plan(tier):
         add("gen", dict(N=3, G=2, flags="allsamples"), "one1", per=2, modes=["site"])
         add("gen", dict(N=4, G=1, flags="allsamples"), "one2at1", per=1, modes=["site"])
         add("gen", dict(N=3, G=1, flags="allsamples"), "one3", per=1, modes=["site"])
+        add("gen", dict(N=3, G=1, flags="allsamples"), "emptyalleles", per=1, modes=["site"])
         # named statistics
         add("named", dict(N=2, G=2), "mixed", per=1, modes=["site"])
         add("named", dict(N=2, G=2), "rich", per=2)
@@ -1390,6 +1397,8 @@ def _plan(tier):
         add("gen", dict(N=3, G=2), "two1", per=8, modes=["site"])
         add("gen", dict(N=4, G=1), "one2mid", per=6, modes=["site"])
         add("gen", dict(N=3, G=1), "one3", per=2, modes=["site"])
+        add("gen", dict(N=3, G=2, flags="allsamples"), "emptyalleles", per=1, modes=["site"])
+        add("named", dict(N=3, G=1, flags="allsamples"), "emptyalleles", per=1, modes=["site"])
         add("gen", dict(N=3, G=3, flags="allsamples"), "one1", per=4, modes=["site"], wlimit=12)
         add("named", dict(N=2, G=2), "one2", per=1, full=True, modes=["site"])
         add("named", dict(N=2, G=2), "rich", per=2, full=True)
